@@ -89,9 +89,19 @@ def mutants(text, rng, n):
     return out
 
 
-def load_sources(ctx, n_mut_per_file, include_known=True, gen=0):
+def load_sources(ctx, n_mut_per_file, include_known=True, gen=0, pid=None):
     """[(name, text, origin)]"""
     res = []
+    # open/: witnesses of REPORTED, unrepaired defects (each has a `known:` line in KNOWN_FINDINGS.txt and a file under
+    # findings/).  The first line `// open-finding: C04 C05` names the properties whose check drives the witness.
+    od = os.path.join(TESTDATA, "open")
+    if include_known and os.path.isdir(od):
+        for fn in sorted(os.listdir(od)):
+            if fn.endswith(".wuffs"):
+                text = open(os.path.join(od, fn)).read()
+                m = re.match(r"// open-finding:([ \w]*)\n", text)
+                if m and (pid is None or pid in m.group(1).split()):
+                    res.append((fn[:-6], text, "open-finding"))
     # corpus: accepted programs, one per mechanism; known/: witnesses of repaired checker defects (now rejected);
     # reject/: unsafe programs that the checker must reject, each for exactly one reason - a checker regression that
     # accepts one of them turns it into an accepted program like any other, and the model finds its fault
@@ -215,8 +225,9 @@ def compile_batch(ctx, b, variants=(("gcc", "-O1"),)):
 # ---------------------------------------------------------------------- TLC
 
 def cfg_text(maxcalls, mode, schedule, fuel, invariants, view):
-    s = ("SPECIFICATION Spec\nCONSTANTS\n  ProgFile = \"progs.json\"\n  MaxCalls = %d\n  Mode = \"%s\"\n  Schedule = \"%s\"\n  Fuel = %d\n"
-         % (maxcalls, mode, schedule, fuel))
+    # facts end a behaviour only where they are the property (C02): elsewhere execution goes on to the unsafe step itself
+    s = ("SPECIFICATION Spec\nCONSTANTS\n  ProgFile = \"progs.json\"\n  MaxCalls = %d\n  Mode = \"%s\"\n  Schedule = \"%s\"\n  Fuel = %d\n  CheckFacts = %s\n"
+         % (maxcalls, mode, schedule, fuel, "TRUE" if "FactsTrue" in invariants else "FALSE"))
     s += "INVARIANTS " + " ".join(invariants) + "\n"
     if view:
         s += "VIEW View\n"
@@ -319,7 +330,7 @@ def _drive(exe, lines, per_line_s):
     return out, why
 
 
-def replay(ctx, b, hists, exe, per_line_s=6.0):
+def replay(ctx, b, hists, exe, per_line_s=3.0, dead=None):
     """Step the compiled C through every exported history; return mismatches.
     A history on which the compiled C does not answer (it hangs, confirmed by a
     second run of that history alone with a 4x budget, or it crashes, confirmed
@@ -333,7 +344,7 @@ def replay(ctx, b, hists, exe, per_line_s=6.0):
         i, p = byname[h["progname"]]
         items.append((h, p, wcore.history_script(i, h)))
     bad, calls = [], 0
-    dead = set()           # (program, function) with a confirmed hang / crash
+    dead = set() if dead is None else dead           # (program, function) with a confirmed hang / crash (shared between compilers)
     pos = 0
     while pos < len(items):
         chunk = [it for it in items[pos:] if not any((it[1]["name"], c["fn"]) in dead for c in it[0]["hist"])]
@@ -389,10 +400,13 @@ def replay(ctx, b, hists, exe, per_line_s=6.0):
                 else:
                     exp_st = None
                 exp_ret = c["rv"] if f["rets"] == "num" and isinstance(c["rv"], int) else 0
-                ok = rep is not None and rep["st"] == exp_st and rep["ri"] == c["ri"] and rep["out"] == c["out"] and rep["ret"] == exp_ret
+                # (the source's write index and closed flag belong to the caller: a call returns them as it got them)
+                ok = (rep is not None and rep["st"] == exp_st and rep["ri"] == c["ri"] and rep["out"] == c["out"] and rep["ret"] == exp_ret
+                      and rep["swi"] == c["wi0"] and rep["sclosed"] == (1 if c["closed0"] else 0))
                 if not ok:
                     bad.append({"prog": p["name"], "origin": p["origin"], "input": h["input"], "call_index": k2, "history": h["hist"][:k2 + 1],
-                                "spec_expects": {"status": exp_st, "ri": c["ri"], "out": c["out"], "ret": exp_ret}, "c_says": rep,
+                                "spec_expects": {"status": exp_st, "ri": c["ri"], "out": c["out"], "ret": exp_ret, "swi": c["wi0"], "sclosed": 1 if c["closed0"] else 0},
+                                "c_says": rep,
                                 "source": p["src"]})
                     break
     return bad, calls
@@ -442,6 +456,12 @@ def explain(p, kind, detail):
         if kind == "fact" and detail.startswith("loop "):
             st = N[int(detail.split()[1]) - 1]
             return "loop %s condition `%s` is false when reached" % (st["a"], describe_node(p, st["r"]))
+        if kind == "viol" and "@" in detail:
+            what, sid = detail.rsplit("@", 1)
+            st = N[int(sid) - 1]
+            lines = p.get("src", "").split("\n")
+            text = lines[st["ln"] - 1].strip() if 0 < st["ln"] <= len(lines) else st["k"]
+            return "safety violation (%s) while executing line %d `%s`" % (what, st["ln"], text)
         if kind == "range":
             n = N[int(detail) - 1]
             return "value of `%s` (line %d) outside the claimed range [%s ..= %s]" % (
@@ -471,20 +491,22 @@ def signature(p, kind, detail):
         return names.setdefault(w, "v%d" % (len(names) + 1))
     norm = re.sub(r"[A-Za-z_]\w*|\d+", ren, expr)
     norm = re.sub(r"\s+", "", norm)
+    if kind == "viol":
+        return "viol:%s:%s" % (detail.split("@")[0].replace(" ", "-"), norm)
     return "%s:%s" % (kind, norm)
 
 
 def settings(ctx, pid="C01"):
     t = ctx.tier == "thorough"
     st = {
-        "n_mut": 40 if t else 3,
+        "n_mut": 40 if t else 2,
         "gen": 120 if t else 6,
         "max_in": 3,
         "max_inputs": 10 if t else 5,
         "max_choices": 3 if t else 1,     # random ones, in addition to the all-min, all-max and all-equal combinations
         "maxcalls": 3 if t else 2,
         "fuel": 400,
-        "group": 6,
+        "group": 6 if t else 9,            # (a TLC process costs ~30 CPU-seconds before its first state: fewer, larger groups in the quick tier)
         "par": 4,
         "workers": 4,
     }
@@ -501,7 +523,7 @@ def model_check(ctx, pid, mode, schedule, invariants, fault_kinds, want_export=F
     """Common driver: returns (batch, violations, hists, stats, settings)."""
     st = settings(ctx, pid)
     tools = build_tools(ctx)
-    srcs = load_sources(ctx, st["n_mut"], include_known=True, gen=st["gen"])
+    srcs = load_sources(ctx, st["n_mut"], include_known=True, gen=st["gen"], pid=pid)
     b = prepare(ctx, tools, srcs, max_in=st["max_in"], max_inputs=st["max_inputs"], max_choices=st["max_choices"])
     ctx.log("%d sources: %d accepted and interpreted, %d rejected by the compiler, %d outside the fragment" % (
         len(srcs), len(b.progs), len(b.rejected), len(b.skipped)))
